@@ -169,6 +169,8 @@ def run(prop, tier="quick", seed=0, replay_path=None):
             E.contracts, E.inline, E.loop_specs, E.hooks = {}, set(), {}, {}
             dm.build(E, tier)
             E.oid_prefix, E.case_suffix, E.contracts, E.inline, E.loop_specs, E.hooks = saved
+            if getattr(dm, "FILTER_BY_PROPERTY", False):
+                E.obligations[n0:] = [o for o in E.obligations[n0:] if o.id.startswith(dep.upper() + "/")]
             for o in E.obligations[n0:]:
                 o.id = "%s/dep:%s" % (prop, o.id)
                 o.meta["dep"] = dep.upper()
